@@ -430,8 +430,19 @@ class ShimLock:
         return False
 
 
+EVENT_ALLOC_FAULT = {"n": None, "fired": 0}
+
+
 class ShimEvent:
     def __init__(self):
+        # fault point: creating the n-th Event inside a simulated thread fails (allocation failure)
+        if EVENT_ALLOC_FAULT["n"] is not None and _ACTIVE is not None and _ACTIVE.current is not None and not _ACTIVE.aborting:
+            EVENT_ALLOC_FAULT["n"] -= 1
+            if EVENT_ALLOC_FAULT["n"] <= 0:
+                EVENT_ALLOC_FAULT["n"] = None
+                EVENT_ALLOC_FAULT["fired"] += 1
+                EVENT_ALLOC_FAULT.setdefault("failed_inv", set()).add(_ACTIVE.current.data.get("inv"))
+                raise MemoryError("injected allocation failure creating a threading.Event")
         self.flag = False
         self.waiters = []
 
